@@ -90,6 +90,20 @@ impl<'w> Ctx<'w> {
         Some((x, place, format!("decide (0 < {}.length)", cur), format!("{}.length - 1", cur)))
     }
 
+    /// `for (a, b) in LIST` over a name standing for a place that holds a list of pairs
+    fn for_pairs(&self, f: &syn::ExprForLoop) -> Option<(Place, String, String, Vec<Ty>)> {
+        let name = match &*f.expr { Expr::Path(p) if p.path.segments.len() == 1 => p.path.segments[0].ident.to_string(), _ => return None };
+        let place = self.elems.get(&name)?.clone();
+        if place.index.is_some() || place.proj.is_some() || place.range.is_some() { return None; }
+        let comps = match self.resolve(&place.ty) { Ty::List(t) => match *t { Ty::Tuple(ts) if ts.len() == 2 => ts, _ => return None }, _ => return None };
+        let t = f.pat.to_token_stream().to_string().replace(' ', "");
+        let inner = t.strip_prefix("(")?.strip_suffix(")")?;
+        let (a0, a1) = inner.split_once(',')?;
+        let ident = |s: &str| !s.is_empty() && s.chars().all(|c| c.is_alphanumeric() || c == '_');
+        if !ident(a0) || !ident(a1) { return None; }
+        Some((place, a0.to_string(), a1.to_string(), comps))
+    }
+
     fn ret_pack(&self, val: Option<&str>) -> String {
         let mut parts: Vec<String> = vec![];
         if self.ret_ty != Ty::Unit {
@@ -273,6 +287,8 @@ impl<'w> Ctx<'w> {
             }
             Stmt::Expr(x, semi) => self.expr_stmt(x, n, tail && semi.is_none(), tail, aliases, out),
             Stmt::Macro(m) => self.macro_stmt(&m.mac, n, out),
+            // a nested function translated by a `nested` target of its own
+            Stmt::Item(Item::Fn(f)) if self.w.fns.contains_key(&f.sig.ident.to_string()) => Ok(()),
             Stmt::Item(_) => Err("nested item".into()),
         }
     }
@@ -364,6 +380,29 @@ impl<'w> Ctx<'w> {
             }
             Expr::If(i) => self.if_stmt(i, n, tail, aliases, out),
             Expr::Match(m) => self.match_stmt(m, n, tail, aliases, out),
+            Expr::ForLoop(f) if self.for_pairs(f).is_some() => {
+                // for (a, b) in LIST   with LIST a `&mut Vec<(A, B)>` place: a, b stand for the components of element i
+                let (place, a0, a1, comps) = self.for_pairs(f).unwrap();
+                let cur = self.place_read(&place);
+                let i = self.fresh("i");
+                let len = self.fresh("len");
+                out.push(format!("{}let {} : Nat := {}.length", ind(n), len, cur));
+                out.push(format!("{}for {} in List.range' 0 {} do", ind(n), i, len));
+                for (k, nm) in [(0usize, &a0), (1usize, &a1)] {
+                    let mut lp = place.clone();
+                    lp.index = Some(i.clone());
+                    lp.proj = Some((k, 2));
+                    lp.ty = comps[k].clone();
+                    self.elems.insert(nm.clone(), lp);
+                }
+                self.loop_fin.push(None);
+                let body = self.block(&f.body, n + 1, false, aliases);
+                self.loop_fin.pop();
+                self.elems.remove(&a0);
+                self.elems.remove(&a1);
+                out.extend(body?);
+                Ok(())
+            }
             Expr::ForLoop(f) => {
                 let (lo, hi) = match &*f.expr {
                     Expr::Range(r) if matches!(r.limits, RangeLimits::HalfOpen(_)) => {
@@ -736,7 +775,124 @@ impl<'w> Ctx<'w> {
         Ok(())
     }
 
+    fn arm_body_lines(&mut self, body: &Expr, depth: usize, tail: bool, aliases: &BTreeMap<String, Alias>) -> R<Vec<String>> {
+        match body {
+            Expr::Block(b) => self.block(&b.block, depth, tail, aliases),
+            other => {
+                let mut o = vec![];
+                let mut al2 = aliases.clone();
+                self.expr_stmt(other, depth, tail, tail, &mut al2, &mut o)?;
+                if o.is_empty() { o.push(format!("{}pure ()", ind(depth))); }
+                Ok(o)
+            }
+        }
+    }
+
+    /// `match PLACE.as_mut() { Some(x) => A, None => B }` (and `match &mut PLACE { .. }` in tail position), `PLACE` an
+    /// `Option`: inside `A` the name `x` stands for the content of the place — every write goes through to it at once,
+    /// so an early `return` in `A` hands back the updated value.
+    fn match_opt_alias(&mut self, m: &ExprMatch, n: usize, tail: bool, aliases: &BTreeMap<String, Alias>, out: &mut Vec<String>) -> Option<R<()>> {
+        let pe: &Expr = match &*m.expr {
+            Expr::MethodCall(mc) if mc.method == "as_mut" && mc.args.is_empty() => &mc.receiver,
+            Expr::Reference(r) if r.mutability.is_some() && tail => &r.expr,
+            _ => return None,
+        };
+        let place = self.place_of(pe)?;
+        if place.opt || place.index.is_some() || place.proj.is_some() || place.range.is_some() { return None; }
+        let inner_ty = match self.resolve(&place.ty) { Ty::Opt(t) => *t, _ => return None };
+        if m.arms.len() != 2 || m.arms.iter().any(|a| a.guard.is_some()) { return None; }
+        let mut some_name: Option<String> = None;
+        let mut kinds = vec![];
+        for a in &m.arms {
+            let t = a.pat.to_token_stream().to_string().replace(' ', "");
+            if t == "None" { kinds.push(false); continue; }
+            let x = t.strip_prefix("Some(")?.strip_suffix(")")?;
+            if x.is_empty() || !x.chars().all(|c| c.is_alphanumeric() || c == '_') { return None; }
+            some_name = Some(x.to_string());
+            kinds.push(true);
+        }
+        if kinds.iter().filter(|k| **k).count() != 1 { return None; }
+        let x = some_name?;
+        let mut go = || -> R<()> {
+            out.push(format!("{}match {} with", ind(n), self.place_read(&place)));
+            for (a, is_some) in m.arms.iter().zip(kinds.iter()) {
+                if *is_some {
+                    out.push(format!("{}| Option.some _ =>", ind(n)));
+                    let mut lp = place.clone();
+                    lp.opt = true;
+                    lp.ty = inner_ty.clone();
+                    let shadowed = self.elems.insert(x.clone(), lp);
+                    let r = self.arm_body_lines(&a.body, n + 1, tail, aliases);
+                    match shadowed { Some(o) => { self.elems.insert(x.clone(), o); } None => { self.elems.remove(&x); } }
+                    out.extend(r?);
+                } else {
+                    out.push(format!("{}| Option.none =>", ind(n)));
+                    out.extend(self.arm_body_lines(&a.body, n + 1, tail, aliases)?);
+                }
+            }
+            Ok(())
+        };
+        Some(go())
+    }
+
+    /// `match LIST.split_last_mut() { Some(((a, b), head)) => A, None => B }`, `LIST` a place holding a list of pairs:
+    /// `a`, `b` stand for the components of its last element, `head` for the elements before it.
+    fn match_split_last(&mut self, m: &ExprMatch, n: usize, tail: bool, aliases: &BTreeMap<String, Alias>, out: &mut Vec<String>) -> Option<R<()>> {
+        let mc = match &*m.expr { Expr::MethodCall(mc) if mc.method == "split_last_mut" && mc.args.is_empty() => mc, _ => return None };
+        let place = self.place_of(&mc.receiver)?;
+        if place.range.is_some() || place.proj.is_some() || place.index.is_some() { return None; }
+        let elem_ty = match self.resolve(&place.ty) { Ty::List(t) => *t, _ => return None };
+        let comps = match &elem_ty { Ty::Tuple(ts) if ts.len() == 2 => ts.clone(), _ => return None };
+        if m.arms.len() != 2 || m.arms.iter().any(|a| a.guard.is_some()) { return None; }
+        let ident = |s: &str| !s.is_empty() && s.chars().all(|c| c.is_alphanumeric() || c == '_');
+        let mut names: Option<(String, String, String)> = None;
+        let mut kinds = vec![];
+        for a in &m.arms {
+            let t = a.pat.to_token_stream().to_string().replace(' ', "");
+            if t == "None" { kinds.push(false); continue; }
+            let inner = t.strip_prefix("Some(((")?.strip_suffix("))")?;
+            let (pair, head) = inner.split_once("),")?;
+            let (a0, a1) = pair.split_once(',')?;
+            if !ident(a0) || !ident(a1) || !ident(head) { return None; }
+            names = Some((a0.to_string(), a1.to_string(), head.to_string()));
+            kinds.push(true);
+        }
+        if kinds.iter().filter(|k| **k).count() != 1 { return None; }
+        let (a0, a1, head) = names?;
+        let mut go = || -> R<()> {
+            let cur = self.place_read(&place);
+            let j = self.fresh("j");
+            // arms in source order; the `Some` arm is the `then` branch
+            let some_first = kinds[0];
+            let (some_arm, none_arm) = if some_first { (&m.arms[0], &m.arms[1]) } else { (&m.arms[1], &m.arms[0]) };
+            out.push(format!("{}if 0 < {}.length then", ind(n), cur));
+            out.push(format!("{}let {} : Nat := {}.length - 1", ind(n + 1), j, cur));
+            for (k, nm) in [(0usize, &a0), (1usize, &a1)] {
+                let mut lp = place.clone();
+                lp.index = Some(j.clone());
+                lp.proj = Some((k, 2));
+                lp.ty = comps[k].clone();
+                self.elems.insert(nm.clone(), lp);
+            }
+            self.heads.insert(head.clone(), (place.clone(), "0".to_string(), j.clone()));
+            let r = self.arm_body_lines(&some_arm.body, n + 1, tail, aliases);
+            self.elems.remove(&a0);
+            self.elems.remove(&a1);
+            self.heads.remove(&head);
+            out.extend(r?);
+            out.push(format!("{}else", ind(n)));
+            out.extend(self.arm_body_lines(&none_arm.body, n + 1, tail, aliases)?);
+            Ok(())
+        };
+        Some(go())
+    }
+
     fn match_stmt(&mut self, m: &ExprMatch, n: usize, tail: bool, aliases: &mut BTreeMap<String, Alias>, out: &mut Vec<String>) -> R<()> {
+        {
+            let al = aliases.clone();
+            if let Some(r) = self.match_opt_alias(m, n, tail, &al, out) { return r; }
+            if let Some(r) = self.match_split_last(m, n, tail, &al, out) { return r; }
+        }
         let (scrut, place) = self.scrutinee(&m.expr)?;
         self.flush_pre(n, out);
         // guards outside the restricted form `P(x) if g => A, P(_) => B`: the general translation
@@ -884,6 +1040,25 @@ impl<'w> Ctx<'w> {
 }
 
 impl World {
+    /// `FnMut(&mut T) -> U` among the bounds of a type parameter
+    fn fnmut_bound(&self, bounds: &syn::punctuated::Punctuated<TypeParamBound, Token![+]>, generics: &BTreeMap<String, Ty>) -> Option<Ty> {
+        for b in bounds {
+            if let TypeParamBound::Trait(tb) = b {
+                let seg = tb.path.segments.last()?;
+                if seg.ident != "FnMut" { continue; }
+                if let PathArguments::Parenthesized(pa) = &seg.arguments {
+                    if pa.inputs.len() != 1 { return None; }
+                    let is_mut_ref = matches!(&pa.inputs[0], Type::Reference(r) if r.mutability.is_some());
+                    if !is_mut_ref { return None; }
+                    let a = self.ty_of(&pa.inputs[0], generics).ok()?;
+                    let r = match &pa.output { ReturnType::Type(_, t) => self.ty_of(t, generics).ok()?, _ => return None };
+                    return Some(Ty::FnMut1(Box::new(a), Box::new(r)));
+                }
+            }
+        }
+        None
+    }
+
     pub fn tr_fn(&mut self, f: &File, ty_name: Option<&str>, name: &str, opts: &BTreeMap<String, String>) -> R<String> {
         // locate
         let mut found: Option<(Signature, Block, Generics)> = None;
@@ -910,7 +1085,23 @@ impl World {
                 _ => {}
             }
         }
-        let (sig, mut body, impl_generics) = found.ok_or_else(|| format!("function {} not found", name))?;
+        let (mut sig, mut body, mut impl_generics) = found.ok_or_else(|| format!("function {} not found", name))?;
+        // `nested=<fn>`: the function item declared inside that method's body
+        let nested = opts.get("nested").cloned();
+        if let Some(nf) = &nested {
+            let mut inner: Option<(Signature, Block)> = None;
+            for st in &body.stmts {
+                if let Stmt::Item(Item::Fn(f)) = st {
+                    if f.sig.ident == nf.as_str() { inner = Some((f.sig.clone(), (*f.block).clone())); }
+                }
+            }
+            let (s2, b2) = inner.ok_or_else(|| format!("nested function {} not found in {}", nf, name))?;
+            sig = s2;
+            body = b2;
+            impl_generics = Generics::default();
+        }
+        let is_rec = opts.contains_key("rec");
+        let declared_uses: Vec<&str> = opts.get("uses").map(|u| u.split(',').collect()).unwrap_or_default();
         // `drop_ret=1`: the returned value is a wrapper around `&mut self` (BlockBuffer): only the effect on self is translated
         let drop_ret = opts.contains_key("drop_ret");
         if drop_ret {
@@ -923,7 +1114,7 @@ impl World {
         for gp in impl_generics.params.iter().chain(sig.generics.params.iter()) {
             if let GenericParam::Type(tp) = gp {
                 let b = tp.bounds.to_token_stream().to_string();
-                let t = if b.contains("Seek") || b.contains("Read") { Ty::Src } else if b.contains("Write") { Ty::Sink } else if b.replace(' ', "").contains("AsRef<[u8]>") { Ty::Bytes } else { continue };
+                let t = if let Some(ft) = self.fnmut_bound(&tp.bounds, &generics) { ft } else if b.contains("Seek") || b.contains("Read") { Ty::Src } else if b.contains("Write") { Ty::Sink } else if b.replace(' ', "").contains("AsRef<[u8]>") { Ty::Bytes } else { continue };
                 generics.insert(tp.ident.to_string(), t);
             }
         }
@@ -932,7 +1123,7 @@ impl World {
                 if let WherePredicate::Type(pt) = p {
                     let b = pt.bounds.to_token_stream().to_string();
                     let n = pt.bounded_ty.to_token_stream().to_string();
-                    let t = if b.contains("Seek") || b.contains("Read") { Ty::Src } else if b.contains("Write") { Ty::Sink } else if b.replace(' ', "").contains("AsRef<[u8]>") { Ty::Bytes } else { continue };
+                    let t = if let Some(ft) = self.fnmut_bound(&pt.bounds, &generics) { ft } else if b.contains("Seek") || b.contains("Read") { Ty::Src } else if b.contains("Write") { Ty::Sink } else if b.replace(' ', "").contains("AsRef<[u8]>") { Ty::Bytes } else { continue };
                     generics.insert(n, t);
                 }
             }
@@ -954,12 +1145,38 @@ impl World {
             }
         }
 
-        let lean_name = opts.get("as").cloned().unwrap_or_else(|| match ty_name {
+        let lean_name = opts.get("as").cloned().unwrap_or_else(|| match (ty_name, &nested) {
+            (Some(t), Some(nf)) => format!("{}.{}.{}", t, name, nf),
+            (None, Some(nf)) => format!("{}.{}", name, nf),
+            _ => String::new(),
+        });
+        let lean_name = if !lean_name.is_empty() { lean_name } else { match ty_name {
             // a method named like a field of its struct (builders): Lean keeps the projection, the method gets `_fn`
             Some(t) if self.structs.get(t).map_or(false, |fs| fs.iter().any(|(f, _)| f == name)) => format!("{}.{}_fn", t, name),
             Some(t) => format!("{}.{}", t, name),
             None => name.to_string(),
-        });
+        } };
+        let fn_key = match (&nested, ty_name) { (Some(nf), _) => nf.clone(), (None, Some(t)) => format!("{}.{}", t, name), (None, None) => name.to_string() };
+        if is_rec {
+            // the signature is known before the body: register it so that the body can call itself
+            let fuel = opts.get("fuel").ok_or("rec=1 needs fuel=")?;
+            let _ = fuel;
+            let mut ps: Vec<(Ty, bool)> = vec![];
+            for inp in &sig.inputs {
+                match inp {
+                    FnArg::Receiver(_) => return Err("recursive method with self".into()),
+                    FnArg::Typed(pt) => {
+                        let by_mut = matches!(&*pt.ty, Type::Reference(r) if r.mutability.is_some());
+                        let t = self.ty_of(&pt.ty, &generics)?;
+                        let by_mut = (by_mut && !matches!(t, Ty::FnMut1(_, _))) || t == Ty::Sink || (t == Ty::Src && opts.contains_key("rback"));
+                        ps.push((t, by_mut));
+                    }
+                }
+            }
+            let (rt, is_res) = match &sig.output { ReturnType::Default => (Ty::Unit, false), ReturnType::Type(_, t) => match self.ty_of(t, &generics)? { Ty::Res(x) => (*x, true), o => (o, false) } };
+            self.fns.insert(fn_key.clone(), FnSig { lean: format!("{}.go", lean_name), params: ps, ret: rt, self_mut: false, has_self: false, uses_step: false, ret_is_res: is_res,
+                uses_decompress: declared_uses.contains(&"decompress"), uses_w: false, view: None, uses_compress: false, rec_self: true });
+        }
         let mut ctx = Ctx {
             w: self, vars: vec![BTreeMap::new()], widths: Rc::new(RefCell::new(vec![])), ivar_parent: Rc::new(RefCell::new(vec![])),
             pre: vec![], ret_ty: Ty::Unit, muts: vec![], generics: generics.clone(), fuel: opts.get("fuel").cloned(),
@@ -996,7 +1213,9 @@ impl World {
                     };
                     let by_mut = matches!(&*pt.ty, Type::Reference(r) if r.mutability.is_some());
                     let t = self.ty_of(&pt.ty, &generics)?;
-                    let by_mut = by_mut || t == Ty::Sink;
+                    // `rback=1`: a by-value `R: Read + Seek` is a `&mut` reader at every call site: its position is handed back
+                    // a `&mut F` closure is the stateless function itself: nothing to hand back
+                    let by_mut = (by_mut && !matches!(t, Ty::FnMut1(_, _))) || t == Ty::Sink || (t == Ty::Src && opts.contains_key("rback"));
                     let ln = ctx.bind(&n, t.clone());
                     params.push(format!("({} : {})", ln, self.lean_ty(&t)?));
                     sig_params.push((t, by_mut));
@@ -1065,6 +1284,19 @@ impl World {
         }
         // patch integer widths
         let mut text = String::new();
+        let plain_name = lean_name.clone();
+        let lean_name = if is_rec { format!("{}.go", lean_name) } else { lean_name };
+        if is_rec {
+            text.push_str(&format!("def {} {} (fuel : Nat) : M {} :=\n  match fuel with\n  | 0 => throw (Fail.panic \"r2l: recursion fuel exhausted\")\n  | fuel + 1 => do\n", lean_name, params.join(" "), paren(&lean_ret)));
+            for r in &rebinds {
+                text.push_str(&format!("    {}\n", r));
+            }
+            for l in &lines {
+                text.push_str("  ");
+                text.push_str(l);
+                text.push('\n');
+            }
+        } else {
         text.push_str(&format!("def {} {} : M {} := do\n", lean_name, params.join(" "), paren(&lean_ret)));
         for r in &rebinds {
             text.push_str(&format!("  {}\n", r));
@@ -1072,6 +1304,7 @@ impl World {
         for l in &lines {
             text.push_str(l);
             text.push('\n');
+        }
         }
         let used_decompress = ctx.used_decompress;
         let used_compress = ctx.used_compress;
@@ -1106,9 +1339,18 @@ impl World {
             }
         }
         drop(ctx);
+        if is_rec {
+            if used_step || uses_w || used_compress { return Err("recursive function over an external cursor / writer".into()); }
+            if used_decompress != declared_uses.contains(&"decompress") { return Err("recursive function: declare `uses=decompress` exactly when it is used".into()); }
+            let fuel = opts.get("fuel").unwrap();
+            let names: Vec<String> = sig.inputs.iter().filter_map(|i| match i { FnArg::Typed(pt) => match &*pt.pat { Pat::Ident(i) => Some(lean_ident(&i.ident.to_string())), _ => None }, _ => None }).collect();
+            let ext = if used_decompress { "(decompress : CompressionType → List UInt8 → Option (List UInt8)) " } else { "" };
+            let extn = if used_decompress { "decompress " } else { "" };
+            text.push_str(&format!("\ndef {} {}{} : M {} :=\n  {} {}{} ({})\n", plain_name, ext, params.join(" "), paren(&lean_ret), lean_name, extn, names.join(" "), fuel));
+        }
         self.fns.insert(
-            match ty_name { Some(t) => format!("{}.{}", t, name), None => name.to_string() },
-            FnSig { lean: lean_name, params: sig_params, ret: ret_inner, self_mut, has_self, uses_step: used_step, ret_is_res: matches!(ret, Ty::Res(_)), uses_decompress: used_decompress, uses_w, view, uses_compress: used_compress },
+            fn_key,
+            FnSig { lean: plain_name, params: sig_params, ret: ret_inner, self_mut, has_self, uses_step: used_step, ret_is_res: matches!(ret, Ty::Res(_)), uses_decompress: used_decompress, uses_w, view, uses_compress: used_compress, rec_self: false },
         );
         Ok(text)
     }
